@@ -1,3 +1,96 @@
-import Sheens.MatchSpec
+import Sheens.Proofs.All
 
-/-! Property C01 — theorems (in progress). -/
+/-!
+# Property C01 — soundness of the pattern matcher
+
+Every binding set returned by `matchF` (the model of `Matcher.match`) extends the given
+bindings, only adds keys that are variables of the pattern (or plain-named counterparts of
+its inequality variables), and makes the pattern *contained* in the message (`Sat`).
+
+Well-formedness predicates (defined in `Sheens/Proofs/Good.lean`):
+
+* `V.good`     : hereditarily JSON-plain (no `.int/.bobj/.other`), no string beginning with '?'
+                 anywhere (keys included), object keys pairwise distinct — what a JSON message /
+                 bound value looks like.
+* `V.plainPat` : hereditarily JSON-plain pattern (variables allowed), object keys pairwise distinct.
+* `GoodBs bs := ∀ k v, lookup k bs = some v → v.good = true`
+* `IneqPrebound p bs₀ := ∀ v ∈ varsOf p, ineqOf v ≠ none → lookup v bs₀ ≠ none`
+  (a variable whose name carries an inequality operator is used as documented: pre-bound in the
+  given bindings).
+-/
+
+namespace Sheens.C01
+
+theorem match_sound (n : Nat) (p f : V) (bs₀ r : Bs) (rs : List Bs)
+    (hp : p.plainPat = true) (hf : f.good = true) (hb : GoodBs bs₀) (hi : IneqPrebound p bs₀)
+    (h : matchF n p f bs₀ = .ok rs) (hr : r ∈ rs) :
+      Extends bs₀ r
+    ∧ (∀ k, lookup k r ≠ none → lookup k bs₀ ≠ none ∨ k ∈ varsOf p ∨ k ∈ ineqBases p)
+    ∧ Sat bs₀ r p f := by
+  have hPB : PB (varsOf p) bs₀ := hi
+  obtain ⟨hpost, hsat⟩ := (sound_all hPB n).1 p f bs₀ rs hp hf (fun _ h => h)
+    ⟨Extends.refl _, hb⟩ h r hr
+  exact ⟨hpost.ext, hpost.keys, hsat⟩
+
+/-! ## Non-vacuity: concrete instances satisfy the hypotheses and produce results -/
+
+/-- the run produced at least one binding set -/
+def nonEmpty : MRes → Bool
+  | .ok (_ :: _) => true
+  | _ => false
+
+theorem nonEmpty_spec {m : MRes} (h : nonEmpty m = true) : ∃ r rs, m = .ok (r :: rs) := by
+  cases m with
+  | ok l => cases l with
+    | nil => simp [nonEmpty] at h
+    | cons r rs => exact ⟨r, rs, rfl⟩
+  | err e => simp [nonEmpty] at h
+  | diverge => simp [nonEmpty] at h
+
+/-- all hypotheses of `match_sound` hold and the run at fuel `n` returns a non-empty result -/
+def Witness (n : Nat) (p f : V) (bs₀ : Bs) : Prop :=
+  p.plainPat = true ∧ f.good = true ∧ GoodBs bs₀ ∧ IneqPrebound p bs₀ ∧
+    nonEmpty (matchF n p f bs₀) = true
+
+instance (n : Nat) (p f : V) (bs₀ : Bs) : Decidable (Witness n p f bs₀) := by
+  unfold Witness; infer_instance
+
+/-- a witness yields an actual instance of the conclusion -/
+theorem Witness.sat {n : Nat} {p f : V} {bs₀ : Bs} (w : Witness n p f bs₀) :
+    ∃ r, Extends bs₀ r ∧ Sat bs₀ r p f := by
+  obtain ⟨hp, hf, hb, hi, hne⟩ := w
+  obtain ⟨r, rs, h⟩ := nonEmpty_spec hne
+  obtain ⟨h1, _, h3⟩ := match_sound n p f bs₀ r (r :: rs) hp hf hb hi h List.mem_cons_self
+  exact ⟨r, h1, h3⟩
+
+/-- nested array, pre-bound variable `?x` (inner), fresh variable `?y` (outer), backtracking over
+    two candidate sub-arrays -/
+example : Witness 60
+    (.arr [.arr [.str "?x", .num 2], .str "a", .str "?y"])
+    (.arr [.str "a", .arr [.num 3], .arr [.num 1, .num 2]])
+    [("?x", .num 1)] := by decide
+
+/-- property variable: `{"?k": "?v"}` against a two-key object (two results) -/
+example : Witness 40
+    (.obj [("?k", .str "?v")])
+    (.obj [("a", .num 1), ("b", .num 2)])
+    [] := by decide
+
+/-- inequality `?<n` pre-bound to 10, message 3: binds the counterpart `?n` -/
+example : Witness 30 (.str "?<n") (.num 3) [("?<n", .num 10)] := by decide
+
+/-- inequality inside an object, with the counterpart re-used as an ordinary variable -/
+example : Witness 60
+    (.obj [("t", .str "?>=lo"), ("u", .arr [.str "?lo"])])
+    (.obj [("t", .num 7), ("u", .arr [.num 5, .num 7])])
+    [("?>=lo", .num 5)] := by decide
+
+/-- optional variable: absent key and skipped array element -/
+example : Witness 60
+    (.obj [("a", .str "??opt"), ("b", .arr [.str "??maybe", .str "x"])])
+    (.obj [("b", .arr [.str "x"])])
+    [] := by decide
+
+end Sheens.C01
+
+#print axioms Sheens.C01.match_sound
